@@ -161,11 +161,13 @@ def check(run):
                     return
             k += 1
     # stress: few, very large stripes sorted concurrently with weights (several stripes of > 2^15 particles in flight at once), repeated
-    for rep in range(20 if run.quick else 200):
+    nstress = 40 if run.quick else 300
+    for rep in range(nstress):
         dtype, wk = [(np.float64, np.float64), (np.float32, np.float32), (np.float64, np.float32), (np.float32, None), (np.float64, None)][rep % 5]
-        if one_call(run, tsc, rng, 360000, [8, 4, 16][rep % 3], rep % 3, dtype, wk, True, [8, 16, 4, 2][rep % 4], 'uniform', 2000.0):
+        # 600000 particles in 4-12 stripes: every stripe far above 2^15 particles, 8 or 16 threads sorting them at the same time
+        if one_call(run, tsc, rng, 600000, [8, 4, 12][rep % 3], rep % 3, dtype, wk, True, [8, 16, 16, 8, 4][rep % 5 if rep % 7 else 4], 'uniform', 2000.0):
             break
-    run.count('large_stripe_sort_stress_calls', 20 if run.quick else 200)
+    run.count('large_stripe_sort_stress_calls', nstress)
     # the same position / weight array objects partitioned again after being overwritten in place
     for rep in range(6 if run.quick else 60):
         N, npart, nthread = [(1000, 7, 4), (17, 3, 16), (100000, 64, 8)][rep % 3]
